@@ -15,6 +15,7 @@ use lock_api::{Mutex as LockApiMutex, RawMutex};
 
 /// Tracks how the future had interacted with the semaphore
 #[derive(PartialEq)]
+#[cfg_attr(futures_intrusive_verif, derive(Debug))]
 enum PollState {
     /// The task has never interacted with the semaphore.
     New,
@@ -29,6 +30,7 @@ enum PollState {
 }
 
 /// Tracks the SemaphoreAcquireFuture waiting state.
+#[cfg_attr(futures_intrusive_verif, derive(Debug))]
 struct WaitQueueEntry {
     /// The task handle of the waiting task
     task: Option<Waker>,
@@ -50,6 +52,7 @@ impl WaitQueueEntry {
 }
 
 /// Internal state of the `Semaphore`
+#[cfg_attr(futures_intrusive_verif, derive(Debug))]
 struct SemaphoreState {
     is_fair: bool,
     permits: usize,
@@ -835,6 +838,12 @@ mod if_alloc {
         pub fn verif_snapshot(&self) -> crate::verif::Snapshot {
             super::verif_hooks::snapshot(&self.state.lock())
         }
+
+        /// `Debug` rendering of the complete internal state (all fields,
+        /// including ones this hook does not know about)
+        pub fn verif_debug(&self) -> alloc::string::String {
+            alloc::format!("{:?}", *self.state.lock())
+        }
     }
 
     #[cfg(futures_intrusive_verif)]
@@ -845,6 +854,11 @@ mod if_alloc {
                 &self.wait_node,
                 &super::verif_hooks::describe,
             )
+        }
+
+        /// `Debug` rendering of the wait node of this future
+        pub fn verif_node_debug(&self) -> alloc::string::String {
+            alloc::format!("{:?}", self.wait_node)
         }
     }
 
@@ -903,12 +917,23 @@ mod verif_hooks {
         pub fn verif_snapshot(&self) -> Snapshot {
             snapshot(&self.state.lock())
         }
+
+        /// `Debug` rendering of the complete internal state (all fields,
+        /// including ones this hook does not know about)
+        pub fn verif_debug(&self) -> alloc::string::String {
+            alloc::format!("{:?}", *self.state.lock())
+        }
     }
 
     impl<'a, MutexType: RawMutex> GenericSemaphoreAcquireFuture<'a, MutexType> {
         /// Describes the wait node of this future
         pub fn verif_node(&self) -> NodeSnap {
             snap_list_node(&self.wait_node, &describe)
+        }
+
+        /// `Debug` rendering of the wait node of this future
+        pub fn verif_node_debug(&self) -> alloc::string::String {
+            alloc::format!("{:?}", self.wait_node)
         }
     }
 }
